@@ -73,7 +73,9 @@ def check_depletion_series(series, p0, pct, rate, tspy, n_expected, bad, where):
         delta = p[0] - hyd
         x = 100.0 * tspy / rate
         stated = delta / x  # decline per step at exactly the stated rate
-        tol = 1.0 / math.floor(x) if x >= 1 else None
+        # the period is a whole number of steps; x evaluated in another order may sit one ulp below an integer
+        n_min = math.floor(x * (1 - 1e-12))
+        tol = 1.0 / n_min if n_min >= 1 else None
         declining = [k for k in range(len(d)) if p[k + 1] > hyd * (1 + 1e-12) + 1e-9]
         info['reaches_hydrostatic'] = bool((np.isclose(p, hyd, rtol=1e-12, atol=1e-9)).any())
         if declining and tol is not None:
@@ -150,10 +152,12 @@ def _model():
 def friction_args(draw):
     n = draw(st.integers(1, 6))
     temps = [draw(gen.nice_floats(30, 300)) for _ in range(n)]
-    flow = draw(st.one_of(gen.nice_floats(1, 200), gen.nice_floats(0.001, 500)))
+    # the declared ranges: flow per well 1..500 kg/s, casing diameter 1..30 inch
+    flow = draw(st.one_of(gen.nice_floats(1, 200), gen.nice_floats(1, 500)))
     depth = draw(gen.nice_floats(100, 10000))
-    d1 = draw(st.one_of(gen.nice_floats(0.05, 0.6), gen.nice_floats(0.02, 2.0)))
-    d2 = draw(st.one_of(gen.nice_floats(d1, min(2.0, d1 * 1.5)), gen.nice_floats(d1, 2.0)))
+    dmax = 30 * 0.0254
+    d1 = draw(st.one_of(gen.nice_floats(0.05, 0.6), gen.nice_floats(0.0254, dmax)))
+    d2 = draw(st.one_of(gen.nice_floats(d1, min(dmax, d1 * 1.5)), gen.nice_floats(d1, dmax)))
     return (temps, flow, depth, d1, d2)
 
 
@@ -162,6 +166,9 @@ def _eval_friction(args, rec):
     W = _fns()
     m = _model()
     case = {'kind': 'friction', 'args': [temps, flow, depth, d1, d2]}
+    if not (0.0254 <= d1 <= d2 <= 30 * 0.0254 * (1 + 1e-12) and 1 <= flow <= 500):
+        rec.case(case, nontrivial=False, labels=['friction_args_outside_declared_ranges'])
+        return
     try:
         with worker.quiet():
             dp1 = np.asarray(W.WellPressureDrop(m, np.asarray(temps), flow, d1, True, depth)[0], dtype=float)
